@@ -98,6 +98,12 @@ Step(Shs, e, t) ==
          IN IF e.ret = R("pair", <<h, m>>) /\ projOK(New) THEN V(TRUE, New, "")
             ELSE V(FALSE, Shs, "stats is not the sum over the shards: expected " \o ToJson(<<h, m>>))
     ELSE IF e.op = "tick" THEN V(TRUE, Shs, "")
+    ELSE IF e.op = "tagindex"
+    THEN IF projOK(Shs) /\ e.ret.k = "none" THEN V(TRUE, Shs, "") ELSE V(FALSE, Shs, "creating / dropping the tag index changed the stored items or failed")
+    ELSE IF e.op = "volume"
+    THEN LET total == FoldSeq(LAMBDA s, acc : acc + e.pbe[s] + SizeSum(Shs[s].rows), 0, [s \in 1..N |-> s])
+         IN IF e.ret = RInt(total) THEN V(TRUE, Shs, "")
+            ELSE V(FALSE, Shs, "volume() returned " \o ToJson(e.ret) \o " expected the sum over all shards " \o ToString(total))
     ELSE IF e.op \in {"pickle", "reopen", "copy"}
     THEN \* C18: another handle on the same directory (unpickled, reopened): the same shards, nothing changes
          IF e.ret.k # "none" THEN V(FALSE, Shs, "C18 " \o e.op \o " of the sharded cache failed with " \o e.ret.k)
